@@ -125,6 +125,98 @@ def sweep_cases():
     return [c for c in out if not KNOWN_CRASH(c[0], c[1])]
 
 
+# ---------------------------------------------------------------- deterministic boundary grid (batched programs)
+
+GRID_INT = ["0", "1", "-1", "2", "-2", "(-9223372036854775807 - 1)", "9223372036854775807", "-9223372036854775807",
+            "2147483648", "-2147483648", "4294967296", "-4294967296", "9007199254740992", "-9007199254740992",
+            "9007199254740993", "9223372036854775808", "-9223372036854775809", "18446744073709551616", "3", "-7"]
+GRID_INT_R = ["0", "1", "-1", "2", "3", "(-9223372036854775807 - 1)", "9223372036854775807", "2147483648", "-4294967296",
+              "9007199254740993", "9223372036854775808", "-9223372036854775809"]
+GRID_FLOAT = ["0.0", "-0.0", "1.0", "-1.0", "5e-324", "1.7976931348623157e308", "-1.7976931348623157e308", "Float::INF",
+              "-Float::INF", "Float::NAN", "9007199254740992.0", "9007199254740994.0", "9007199254740991.0", "0.5", "2.5"]
+GRID_FLOAT_R = ["0.0", "-0.0", "1.0", "-1.0", "2.5", "Float::INF", "Float::NAN", "9007199254740992.0"]
+GRID_SHIFT_R = ["0", "1", "3", "31", "63", "-1", "-3"]
+GRID_POW_R = {"Int": ["0", "1", "2", "3"], "Float": ["0.0", "1.0", "2.0", "0.5", "-1.0"]}
+
+
+def hexlist(xs):
+    return ";".join(x.encode().hex() for x in xs)
+
+
+def grid_lines():
+    """every binary operator on the boundary sets of Int and Float (all four type combinations the checker admits)
+    and the unary operators: one line = one (operator, type pair) batch of len(LA)*len(LB) operand pairs"""
+    out = []
+    for op in OPS:
+        if op in ("<<<", ">>>"):
+            continue                      # not defined on Int/Float
+        for ta, las in (("Int", GRID_INT), ("Float", GRID_FLOAT)):
+            for tb, lbs in (("Int", GRID_INT_R), ("Float", GRID_FLOAT_R)):
+                if op in BITS and (ta, tb) != ("Int", "Int"):
+                    continue
+                if KNOWN_CRASH(op, ta):
+                    continue
+                if op in ("<<", ">>"):
+                    lbs = GRID_SHIFT_R    # 1 << 64 panics on every path (D5, C06)
+                if op == "**":
+                    lbs = GRID_POW_R[tb]
+                if op in ("/", "%") and tb == "Int":
+                    lbs = [x for x in lbs if x != "0"]    # ZeroDivisionError aborts a batch: run separately below
+                out.append("\t".join(["path", "grid", op, ta, tb, hexlist(las), hexlist(lbs)]))
+    for u in ("u-", "u+", "u~"):
+        out.append("\t".join(["path", "grid", u, "Int", "Int", hexlist(GRID_INT), hexlist(["0"])]))
+        if u != "u~":
+            out.append("\t".join(["path", "grid", u, "Float", "Int", hexlist(GRID_FLOAT), hexlist(["0"])]))
+    return out
+
+
+def grid_cases_zero_div():
+    return [(op, "Int", la, "Int", "0") for op in ("/", "%") for la in ("(-9223372036854775807 - 1)", "0", "7")] + \
+           [(op, "Float", "2.5", "Int", "0") for op in ("/", "%")]
+
+
+def grid_pairs(line):
+    f = line.split("\t")
+    las = [bytes.fromhex(h).decode() for h in f[5].split(";")]
+    lbs = [bytes.fromhex(h).decode() for h in f[6].split(";")]
+    if f[2].startswith("u") and len(f[2]) == 2:
+        lbs = ["0"]
+    return f[2], f[3], f[4], [(a, b) for a in las for b in lbs]
+
+
+def grid_oracle(line, ans):
+    """-> (None | failure text, list of (la, lb) pairs to re-run one by one)"""
+    op, ta, tb, pairs = grid_pairs(line)
+    unary = op.startswith("u") and len(op) == 2
+    if not ans.startswith("ok n="):
+        return f"[crash] grid {op} {ta} {tb}: {ans[:100]}", pairs
+    parts = dict(p.split("=", 1) for p in ans[3:].split(" "))
+    n = int(parts["n"])
+    segs = [x for x in parts.get("segs", "").split(",") if x and x != "-"]
+
+    def elems(r, k):
+        if not r.startswith("list_"):
+            return None
+        e = r.split("_")[2:]
+        return e if len(e) == k else None
+    lit = elems(parts["lit"], n)
+    rest = elems(parts["rest"], n * len(segs))
+    if parts["rest"] == "rejected":
+        return None, []                   # no variable form is admitted: nothing to compare the folded form with
+    if lit is None or rest is None:
+        # an error/panic aborted a whole batch (or only one program was rejected): decide pair by pair
+        return None, pairs
+    for i, (la, lb) in enumerate(pairs):
+        seen = {canon_result(lit[i]): ["lit"]}
+        for si, sname in enumerate(segs):
+            seen.setdefault(canon_result(rest[si * n + i]), []).append(sname)
+        if len(seen) > 1:
+            prog = f"{op[1:]}({la})" if unary else f"var a: {ta} = {la}; var b: {tb} = {lb}; a {op} b"
+            return ("[paths-differ] " + prog + " : " +
+                    " vs ".join(f"{'/'.join(v)} -> {r}" for r, v in sorted(seen.items()))), [(la, lb)]
+    return None, []
+
+
 KNOWN_CRASH = lambda op, ta: op == "==" and ta == "Float"   # EQUAL_INT on a Float: kills the worker (known finding)
 
 
@@ -223,7 +315,10 @@ def minimise(line, still, desc_fn):
 def run(ctx):
     ctx.rule = ("(operator, left literal with static type, right literal with static type) over Int/Float/BigFloat/sized "
                 "numerics/String/Char with boundary values; each case is compiled in five variants (literal expression, "
-                "typed variables, union-typed variables, statically bound call, dynamically dispatched call); "
+                "typed variables, union-typed variables, statically bound call, dynamically dispatched call); plus a "
+                "deterministic boundary grid: every binary/unary operator x boundary sets of Int (0, +-1, +-2, Min/MaxInt64, "
+                "+-2^31, +-2^32, +-2^53, 2^63, -2^63-1, 2^64) and Float (+-0, +-1, tiny/huge, +-inf, NaN, 2^53+-) in all four "
+                "type combinations, batched per program, variants compared element-wise; "
                 "distinct = distinct (op, types, literals); non-trivial = at least two variants accepted by the checker")
     # probe tables: regenerated from the real compiler/VM on every run
     try:
@@ -247,7 +342,7 @@ def run(ctx):
         rng = ctx.rng
         cases = []
         seen = set()
-        n = ctx.n(120, 3500)
+        n = ctx.n(80, 3500)
         tries = 0
         while len(cases) < n and tries < n * 20:
             tries += 1
@@ -256,7 +351,7 @@ def run(ctx):
                 continue
             seen.add(c)
             cases.append(c)
-        cases = sweep_cases() + cases
+        cases = sweep_cases() + grid_cases_zero_div() + cases
         lits = sorted({c[2] for c in cases} | {c[4] for c in cases})
         desc = describe(lits)
         lines = vlib.corpus_lines("C08")
@@ -265,6 +360,27 @@ def run(ctx):
                 lines.append(mk_line(*c, desc))
                 ctx.stat("op:" + c[0])
                 ctx.stat("left:" + c[1])
+    if not ctx.replay:
+        glines = grid_lines()
+        gans = []
+        for i in range(0, len(glines), 40):
+            gans += vlib.run_impl(glines[i:i + 40], timeout=900)
+        extra = []
+        for gl, ga in zip(glines, gans):
+            op, ta, tb, pairs = grid_pairs(gl)
+            ctx.stat("grid-batches")
+            ctx.stat("grid-pairs", len(pairs))
+            ctx.evaluations += len(pairs)
+            fail, redo = grid_oracle(gl, ga)
+            if fail is not None or redo:
+                ctx.stat("grid-batches-rerun-pairwise")
+                if op.startswith("u") and len(op) == 2:
+                    extra += [(op, ta, la, "Int", "0") for la, _ in redo[:60]]
+                else:
+                    extra += [(op, ta, la, tb, lb) for la, lb in redo[:60]]
+        if extra:
+            d2 = describe(sorted({c[2] for c in extra} | {c[4] for c in extra}))
+            lines += [mk_line(*c, d2) for c in extra if c[2] in d2 and c[4] in d2]
     # a fresh worker per chunk: every compiled program leaves definitions in the process-global environment
     impl = []
     for i in range(0, len(lines), 250):
